@@ -104,7 +104,7 @@ pub fn finalize_keys(res: &mut SubResult) {
 pub enum Mode {
     /// C04: every flavour x every member order
     Full,
-    /// C11: every source kind and both directory-member flavours, two member orders
+    /// C11: every source kind, both directory-member flavours, plain and `./` names, two member orders
     Reduced,
 }
 
@@ -155,38 +155,42 @@ pub fn for_each_source(t: &Tree, sc: &Scratch, mode: Mode, st: &mut SrcStats, f:
     let flavours: Vec<bool> = if has_dirs { vec![true, false] } else { vec![true] };
 
     // (2) zip
-    let deflates: &[bool] = if mode == Mode::Full { &[false, true] } else { &[true] };
-    for &deflate in deflates {
-        let mut master = mk::zip_master(t, deflate).map_err(mach("zip master"))?;
+    // Full: {stored, deflated} x flavours x prefixes x orders.  Reduced: plain names deflated, `./` stored.
+    let combos: Vec<(bool, bool)> = if mode == Mode::Full { vec![(false, false), (false, true), (true, false), (true, true)] } else { vec![(true, false), (false, true)] };
+    let mut masters: [Option<mk::ZipMem>; 2] = [None, None];
+    for (deflate, prefix) in combos {
+        if masters[deflate as usize].is_none() {
+            masters[deflate as usize] = Some(mk::zip_master(t, deflate).map_err(mach("zip master"))?);
+        }
+        let master = masters[deflate as usize].as_mut().unwrap();
         for &dirs in &flavours {
-            let prefixes: &[bool] = if mode == Mode::Full { &[false, true] } else { &[false] };
-            for &prefix in prefixes {
-                let ml = mk::members(t, dirs, prefix);
-                let ords = if mode == Mode::Full { mk::orders(t, &ml) } else { reduced_orders(t, &ml) };
-                for (label, order) in ords {
-                    let t0 = std::time::Instant::now();
-                    let bytes = mk::zip_variant(&mut master, t, &order, prefix).map_err(mach("zip variant"))?;
-                    let v = Variant { kind: "zip", dirs, prefix, deflate, order: label, backing: "mem", writer: "raw-copy" };
-                    let opened = Zip::from_bytes(&bytes[..]);
-                    st.us_build_zip += t0.elapsed().as_micros() as u64;
-                    match opened {
-                        Ok(z) => {
-                            st.zip_mem += 1;
-                            f(&z, &v, None)
-                        }
-                        Err(e) => st.open_failures.push((v, e.to_string())),
+            let ml = mk::members(t, dirs, prefix);
+            let ords = if mode == Mode::Full { mk::orders(t, &ml) } else { reduced_orders(t, &ml) };
+            for (label, order) in ords {
+                let t0 = std::time::Instant::now();
+                let bytes = mk::zip_variant(master, t, &order, prefix).map_err(mach("zip variant"))?;
+                let v = Variant { kind: "zip", dirs, prefix, deflate, order: label, backing: "mem", writer: "raw-copy" };
+                let opened = Zip::from_bytes(&bytes[..]);
+                st.us_build_zip += t0.elapsed().as_micros() as u64;
+                match opened {
+                    Ok(z) => {
+                        st.zip_mem += 1;
+                        f(&z, &v, None)
                     }
+                    Err(e) => st.open_failures.push((v, e.to_string())),
                 }
             }
         }
     }
-    // the plain writer (start_file + write), in memory and file-backed (`Zip::open`, SyncFile)
-    {
+    // the plain writer (start_file + write), in memory and file-backed (`Zip::open`, SyncFile):
+    // deflated always, stored too in Full mode
+    let methods: &[bool] = if mode == Mode::Full { &[true, false] } else { &[true] };
+    for &deflate in methods {
         let ml = mk::members(t, true, false);
         let order = mk::sorted_order(t, &ml);
-        let bytes = mk::zip_direct(t, &order, false, true).map_err(mach("zip direct"))?;
-        let mut v = Variant { kind: "zip", dirs: true, prefix: false, deflate: true, order: "sorted".into(), backing: "mem", writer: "direct" };
-        if mode == Mode::Full {
+        let bytes = mk::zip_direct(t, &order, false, deflate).map_err(mach("zip direct"))?;
+        let mut v = Variant { kind: "zip", dirs: true, prefix: false, deflate, order: "sorted".into(), backing: "mem", writer: "direct" };
+        if mode == Mode::Full && deflate {
             match Zip::from_bytes(&bytes[..]) {
                 Ok(z) => {
                     st.zip_mem += 1;
@@ -195,13 +199,13 @@ pub fn for_each_source(t: &Tree, sc: &Scratch, mode: Mode, st: &mut SrcStats, f:
                 Err(e) => st.open_failures.push((v.clone(), e.to_string())),
             }
         }
-        let p = sc.base.join("archive-zip");
+        let p = sc.base.join(if deflate { "archive-zip-deflated" } else { "archive-zip-stored" });
         std::fs::write(&p, &bytes).map_err(mach("write zip"))?;
         v.backing = "file";
         match Zip::open(&p) {
             Ok(z) => {
                 st.zip_file += 1;
-                f(&z, &v, Some(&z))
+                f(&z, &v, if deflate { Some(&z) } else { None })
             }
             Err(e) => st.open_failures.push((v, e.to_string())),
         }
@@ -209,8 +213,7 @@ pub fn for_each_source(t: &Tree, sc: &Scratch, mode: Mode, st: &mut SrcStats, f:
 
     // (3) tar
     for &dirs in &flavours {
-        let prefixes: &[bool] = if mode == Mode::Full { &[false, true] } else { &[false] };
-        for &prefix in prefixes {
+        for prefix in [false, true] {
             let ml = mk::members(t, dirs, prefix);
             let (blobs, longs) = mk::tar_blobs(t, &ml, prefix);
             let ords = if mode == Mode::Full { mk::orders(t, &ml) } else { reduced_orders(t, &ml) };
